@@ -18,6 +18,7 @@ type textCase struct {
 	ForBlocks int
 	ExpTokens int     // estimated number of tokens after FOR expansion
 	Amp       float64 // static EQU amplification bound
+	Pristine  bool    // generated program with no mutation or in-flight corruption
 	Notes     []string
 }
 
@@ -36,6 +37,8 @@ type progGen struct {
 	equs     []string // equ names defined so far
 	counters []string // active FOR counters
 	lines    []string
+	pre      []string // lines emitted before everything else
+	passes   int
 	nInstr   int
 	nEqu     int
 	nFor     int
@@ -212,7 +215,7 @@ func (g *progGen) item(depth int) {
 		refs := strings.Count(body, "e") + 1
 		g.amp *= float64(refs)
 	case k < 14:
-		cmp := []string{"==", ">=", "<=", ">", "<", "!="}[g.tp.Draw("assert.cmp", 6)]
+		cmp := []string{"==", ">=", "<=", ">", "<", "==", ">=", "!="}[g.tp.Draw("assert.cmp", 8)]
 		switch g.tp.Draw("assert.kind", 4) {
 		case 0:
 			g.lines = append(g.lines, ";assert 1")
@@ -227,7 +230,7 @@ func (g *progGen) item(depth int) {
 		g.lines = append(g.lines, []string{";redcode-94", ";name w " + g.lit(), ";author a", ";strategy s", "; plain comment", ";"}[g.tp.Draw("comment.kind", 6)])
 	case k < 16:
 		g.lines = append(g.lines, []string{"", " ", "\t"}[g.tp.Draw("blank.kind", 3)])
-	case k < 19 && depth < 3 && g.nFor < 6:
+	case k < 19 && depth < 3 && g.nFor < 6 && g.passes+g.mult <= 11:
 		g.forBlock(depth)
 	default:
 		g.lines = append(g.lines, "org "+g.startExpr())
@@ -259,11 +262,15 @@ func (g *progGen) startExpr() string {
 
 func (g *progGen) forBlock(depth int) {
 	g.nFor++
+	g.passes += g.mult // the expander handles one block per pass (limit 12)
 	count := g.tp.Draw("for.count", 7)
 	countStr := fmt.Sprint(count)
-	if len(g.equs) > 0 && g.tp.Draw("for.equcount", 4) == 0 {
-		countStr = g.equs[g.tp.Draw("for.equ", len(g.equs))]
-		count = 6 // unknown: assume the generator's maximum for the bound
+	if g.tp.Draw("for.equcount", 4) == 0 {
+		// count given by a dedicated EQU so that the expansion stays bounded
+		n := g.name("n")
+		g.pre = append(g.pre, fmt.Sprintf("%s equ %d", n, count))
+		g.nEqu++
+		countStr = n
 	} else if g.tp.Draw("for.exprcount", 6) == 0 {
 		countStr = fmt.Sprintf("%d+%d", count/2, count-count/2)
 	}
@@ -284,7 +291,7 @@ func (g *progGen) forBlock(depth int) {
 	}
 	n := 1 + g.tp.Draw("for.body", 3)
 	for i := 0; i < n; i++ {
-		if depth < 2 && g.nFor < 6 && g.tp.Draw("for.nest", 5) == 0 {
+		if depth < 2 && g.nFor < 6 && g.passes+g.mult <= 11 && g.tp.Draw("for.nest", 5) == 0 {
 			g.forBlock(depth + 1)
 		} else {
 			g.emitInstr("  ")
@@ -306,7 +313,7 @@ func genProgram(tp *simrt.Tape, cfg gp.SimulatorConfig, legalPct int) textCase {
 	for i := 0; i < nLabels; i++ {
 		g.labels = append(g.labels, g.name("l"))
 	}
-	special := tp.Draw("prog.special", 24)
+	special := tp.Draw("prog.special", 28)
 	for i := 0; i < nItems; i++ {
 		g.item(0)
 	}
@@ -364,6 +371,13 @@ func genProgram(tp *simrt.Tape, cfg gp.SimulatorConfig, legalPct int) textCase {
 	case 8: // lexer error after a FOR block
 		g.lines = append(g.lines, "for 1", "dat 0", "rof", "dat 1 = 2")
 		g.notes = append(g.notes, "for-then-lex-error")
+	case 10: // EQU with an empty or odd body
+		n := g.name("z")
+		g.lines = append(g.lines, n+[]string{" equ ;nothing", " equ ; \n" + "dat " + n, " equ ()", " equ ,", " equ -"}[tp.Draw("oddequ.kind", 5)], "dat "+n)
+		g.notes = append(g.notes, "equ-odd-body")
+	case 11: // labels only, operands missing, lone pseudo-ops
+		g.lines = append(g.lines, []string{"lonely", "mov", "org", "equ 3", "a b c d", "x: : :", "jmp ,"}[tp.Draw("odd.kind", 7)])
+		g.notes = append(g.notes, "odd-line")
 	case 9: // error token inside a FOR body / count
 		g.lines = append(g.lines, []string{"for 2 &", "for 2\ndat 1 | 1\nrof", "for 2\ndat 1\nrof &"}[tp.Draw("forerr.kind", 3)])
 		g.notes = append(g.notes, "for-with-lex-error")
@@ -376,6 +390,7 @@ func genProgram(tp *simrt.Tape, cfg gp.SimulatorConfig, legalPct int) textCase {
 	case 2:
 		g.lines = append(g.lines, "end "+g.startExpr(), "this is ignored !!! ~")
 	}
+	g.lines = append(g.pre, g.lines...)
 	nl := "\n"
 	if tp.Draw("render.crlf", 6) == 0 {
 		nl = "\r\n"
@@ -384,7 +399,7 @@ func genProgram(tp *simrt.Tape, cfg gp.SimulatorConfig, legalPct int) textCase {
 	if tp.Draw("render.finalnl", 4) != 0 {
 		text += nl
 	}
-	return textCase{Kind: "program", Text: []byte(text), EquLines: g.nEqu, ForBlocks: g.nFor, ExpTokens: g.expTok + 16*len(g.lines), Amp: g.amp, Notes: g.notes}
+	return textCase{Pristine: true, Kind: "program", Text: []byte(text), EquLines: g.nEqu, ForBlocks: g.nFor, ExpTokens: g.expTok + 16*len(g.lines), Amp: g.amp, Notes: g.notes}
 }
 
 var soupVocab = []string{
@@ -553,7 +568,7 @@ func genConfig(tp *simrt.Tape) gp.SimulatorConfig {
 		m = 3 + tp.Draw("cfg.size.rand", 200)
 	}
 	mode := []gp.SimulatorMode{gp.ICWS94, gp.ICWS88, gp.NOP94}[tp.Draw("cfg.mode", 3)]
-	lens := []int{100, 100, 0, 1, 2, 5, 20, 300}
+	lens := []int{100, 100, 100, 300, 20, 20, 5, 5, 2, 1, 0, 8000}
 	l := lens[tp.Draw("cfg.len", len(lens))]
 	if l > m {
 		l = m
